@@ -14,6 +14,8 @@ FUNCTIONS = [
     "lz4_comp_block", "zstd_comp_block", "lzma_comp_block", "try_compress (lzma.c)",
     "alloc_location_table", "write_id_table (xattr_writer_flush.c)",
     "padd_sqfs",
+    "serialize_tree_node (non-directory nodes)", "tree_node_to_inode",
+    "dequeue_block", "store_io_block", "process_completed_fragment (fragment block overflow path)",
     "fstree_post_process", "alloc_inode_num_dfs", "map_inodes_dfs",
     "reorder_hard_links", "file_list_dfs",
 ]
@@ -122,8 +124,35 @@ HARNESSES = [
          cases=[dict(id="all", tier="quick")]),
     dict(name="meta_append", file="meta_append.c", label="proved", fp=FP,
          loops=["sqfs_meta_writer_append"], timeout=300, unwind=34,
-         pre_instrument_flags=["--replace-calls", "sqfs_meta_writer_flush:stub_flush"],
+         # meta_writer_destroy -> sqfs_drop -> destroy hook is a recursion
+         # candidate that crashes the inliner of --apply-loop-contracts
+         # ("Numeric exception"); it is not reachable from append
+         pre_instrument_flags=["--replace-calls", "sqfs_meta_writer_flush:stub_flush",
+                               "--remove-function-body", "meta_writer_destroy"],
          cases=[dict(id="all", tier="quick")]),
+    dict(name="data_contig_deq", file="data_contig.c", timeout=300, unwind=5,
+         label="bounded(blocks in pool <= 2)", nochecks=["--conversion-check"],
+         include_dirs=["lib/sqfs/src/block_processor"],
+         fp={"dequeue": "stub_pool_dequeue", "get_status": "stub_pool_status",
+             "write_data_block": "stub_write_data_block"},
+         pre_instrument_flags=["--replace-calls", "process_completed_block:stub_pcb",
+                               "--replace-calls", "process_completed_fragment:stub_pcf"],
+         cases=[dict(id="k%d%d" % (a, b), defines={"K0": a, "K1": b}, tier="quick")
+                for (a, b) in ((1, 0), (3, 0), (4, 0), (1, 3), (3, 1), (1, 1), (2, 3), (4, 3))]),
+    dict(name="data_contig_frag", file="data_contig.c", timeout=300, unwind=5,
+         label="bounded(block size <= 8)", nochecks=["--conversion-check"],
+         include_dirs=["lib/sqfs/src/block_processor"],
+         fp={"dequeue": "stub_pool_dequeue", "get_status": "stub_pool_status",
+             "write_data_block": "stub_write_data_block"},
+         cases=[dict(id="overflow", defines={"OP_FRAGMENT": None, "K0": 4, "K1": 0},
+                     tier="quick")]),
+    dict(name="serialize_node", file="serialize_node.c", label="proved", timeout=300,
+         unwind=4, nochecks=["--conversion-check"],
+         include_dirs=["lib/common/src/writer"],
+         cases=[dict(id="file_ext", defines={"KIND": "'F'", "FTYPE": 9}, tier="quick"),
+                dict(id="file_basic", defines={"KIND": "'F'", "FTYPE": 2}, tier="quick"),
+                dict(id="fifo", defines={"KIND": "'O'"}, tier="quick"),
+                dict(id="bdev", defines={"KIND": "'B'"}, tier="quick")]),
     dict(name="inode_kind", file="inode_kind.c", label="proved", unwind=70,
          nochecks=["--conversion-check"], timeout=120,
          native_sources=["lib/util/src/alloc.c"],
